@@ -186,11 +186,11 @@ VRRTable(ev) ==
                     ELSE << [req |-> ev.nb, got |-> draw], [req |-> ev.nb, got |-> Zeros(ev.nb)] >>
             rr   == Randrange(NLit(ev.start), NLit(ev.start + ev.width), log)
             k    == r - ev.lo + 1
-        IN rr.ok /\ NToInt(rr.v) = ev.res[k] /\ ev.nreq[k] = Len(log)
+        IN rr.ok /\ NToInt(rr.v) = ev.res[k] /\ ev.nreq[k] = ev.nb * Len(log)       \* bytes consumed
                  /\ ev.res[k] >= ev.start /\ ev.res[k] < ev.start + ev.width
       bad == {r \in ev.lo..(ev.hi - 1) : ~case(r)}
   IN IF Len(ev.res) # ev.hi - ev.lo THEN PBad("harness: table size", "")
-     ELSE IF ev.nb # SizeBytes(w) THEN PBad("C11: request size is not size_bytes(width)", ToString(SizeBytes(w)))
+     ELSE IF ev.nb # SizeBytes(w) THEN PBad("C11: a draw is not size_bytes(width) bytes", ToString(SizeBytes(w)))
      ELSE IF bad = {} THEN PGood
      ELSE PBad("C11: unbiased_randrange(" \o ToString(ev.start) \o ", " \o ToString(ev.start + ev.width)
                \o ") on first draw " \o ToString(FirstBad(bad)), "")
